@@ -273,7 +273,7 @@ func (e *Engine) smtText(hyps []*Term, goal *Term, produceModel bool) string {
 	// uninterpreted helper families
 	declared := map[string]bool{}
 	for _, fam := range []struct{ prefix, sig string }{
-		{"tq_bitop_", "(Int Int) Int"}, {"tq_strcmp_", "(tq_Str tq_Str) Bool"}, {"tq_uf_bool_", "(Int) Bool"}, {"tq_uf_int_", "(Int) Int"}, {"tq_uf_ref_", "(Int) tq_Ref"}, {"tq_uf_arr_", "(Int) (Array Int Int)"},
+		{"tq_bitop_", "(Int Int) Int"}, {"tq_strcmp_", "(tq_Str tq_Str) Bool"}, {"tq_ufs_bool_", "(tq_Seq) Bool"}, {"tq_ufs_int_", "(tq_Seq) Int"}, {"tq_uf_bool_", "(Int) Bool"}, {"tq_uf_int_", "(Int) Int"}, {"tq_uf_ref_", "(Int) tq_Ref"}, {"tq_uf_arr_", "(Int) (Array Int Int)"},
 	} {
 		idx := 0
 		for {
